@@ -2,6 +2,8 @@
 package c01
 
 import (
+	"strings"
+
 	"verifharness/fw"
 	"verifharness/xp"
 
@@ -265,6 +267,15 @@ func (g *gen) relatedPair() (*xp.E, *xp.E) {
 
 // substring positions: small numbers, negatives, fractions and specials matter
 func (g *gen) substrNum(d int) *xp.E {
+	if g.pick(8, "subhuge") == 0 {
+		// magnitudes at which adding 1 no longer changes a double, and beyond every string length
+		vs := []string{"1000000000000000000", "2000000000000000000", "9007199254740993", "18446744073709551615", "100000000000000000000000", "9223372036854775808", "4294967296", "2147483648"}
+		e := xp.Num(vs[g.pick(len(vs), "subhugeval")])
+		if g.pick(2, "subhugeneg") == 0 {
+			return xp.Neg(e)
+		}
+		return e
+	}
 	switch g.pick(6, "subnum") {
 	case 0:
 		return g.arg('n', d)
@@ -334,8 +345,47 @@ func (g *gen) cmpOperand(kind, d int) *xp.E {
 	}
 }
 
+// nearPairs: operands whose values are distinct doubles a few units in the last place apart (or, for the last ones,
+// different spellings of one and the same double): comparisons are exact in IEEE-754, there is no tolerance.
+var nearPairs = [][2]string{{"0.1 + 0.2", "0.3"}, {"1.1 * 3", "3.3"}, {"4.35 * 100", "435"}, {"1.0000000000000002", "1"}, {"0.30000000000000004", "0.3"},
+	{"0.1 * 3", "0.3"}, {"1 div 3 * 3", "1"}, {"0.7 + 0.1", "0.8"}, {"1 - 0.9", "0.1"}, {"100 * 1.1", "110"}, {"0.49999999999999994", "0.5"},
+	{"9007199254740993", "9007199254740992"}, {"0.1 + 0.7", "0.7 + 0.1"}, {"1e0", "1"}}
+
+func (g *gen) nearOperand(src string) *xp.E {
+	// "a op b" or a single number
+	f := strings.Fields(src)
+	switch len(f) {
+	case 1:
+		return xp.Num(f[0])
+	case 3:
+		return xp.Bin(f[1], xp.Num(f[0]), xp.Num(f[2]))
+	default:
+		return xp.Bin(f[3], xp.Bin(f[1], xp.Num(f[0]), xp.Num(f[2])), xp.Num(f[4]))
+	}
+}
+
 func (g *gen) comparison(d int) *xp.E {
 	op := cmpOps[g.pick(len(cmpOps), "cmpop")]
+	if g.pick(10, "near") == 0 {
+		p := nearPairs[g.pick(len(nearPairs), "nearpair")]
+		a, b := g.nearOperand(p[0]), g.nearOperand(p[1])
+		switch g.pick(4, "nearshape") {
+		case 0:
+			a, b = b, a
+		case 1:
+			// one side as a leaf value (a string converted to a number)
+			if len(strings.Fields(p[1])) == 1 {
+				for _, n := range leafNames {
+					if _, ok := g.leaves[n]; !ok {
+						g.leaves[n] = xp.LeafVal{Kind: "lit", Vals: []string{p[1]}}
+						b = xp.Leaf(n)
+						break
+					}
+				}
+			}
+		}
+		return xp.Bin(op, a, b)
+	}
 	for {
 		lk, rk := g.pick(6, "lkind"), g.pick(6, "rkind")
 		// a single leaf or an absent node against a boolean is a stated grey zone (the implementation hands single leaf
